@@ -333,6 +333,14 @@ func (e diskEngine) Gen(job *Job) *Case {
 			c.Project = genValid(r.Fork())
 		}
 	}
+	if e.prop == "C07" && r.Chance(1, 10) {
+		// a defect planted at a known line: nothing else is wrong with the project, no faults
+		c.Project, c.Expect = genPlanted(r.Fork())
+		if r.Chance(1, 4) {
+			c.Entry = "mem"
+		}
+		return c
+	}
 	if r.Chance(1, 4) && c.Project.File(c.Project.Root) != nil {
 		c.Entry = "mem"
 	}
@@ -347,6 +355,9 @@ func (e diskEngine) Gen(job *Job) *Case {
 	}
 	if r.Chance(1, 4) && c.Project.Kind != "corpus" {
 		c.RootAs = r.Range(1, 6) // another spelling of the same root path (./, /./, //, /../, absolute, ../<cwd>/)
+	}
+	if c.Entry == "mem" && c.Project.Kind != "corpus" && r.Chance(1, 5) {
+		c.RootAs = r.Range(7, 8) // a root in memory may carry any name: here the directory itself ("a/p/", "a/p/.")
 	}
 	if r.Chance(1, 10) {
 		kw := []string{"MACRO", "PASTE", "INCLUDE", "TAG", "ENUM", "Description", "Query", "SERVER", "TYPE", "Headers"}
@@ -650,6 +661,9 @@ func (e diskEngine) Exec(c *Case, job *Job) *Result {
 		v01c, v01s = "work-not-proportional", "work-not-proportional"
 		v01m = fmt.Sprintf("the build executed %d seam operations for %d bytes of input (%d per byte; the unchanged tree stays below 10 per byte): work is not proportional to the input", ops, served, ops/uint64(served+1))
 	}
+	if c.Expect != nil && c.Project.Kind == "planted-defect" && o.OK {
+		res.count("c07:planted-project-accepted(nothing-to-check)", 1)
+	}
 	v14c, v14s, v14m := oracleC14(c, o, log, mr, modelAsserted, res, rootPath)
 	v07c, v07s, v07m := oracleC07(c, o, log, mr, modelAsserted && !mr.abstained, rootPath, rootData, res)
 
@@ -877,7 +891,7 @@ func locatedAtInclude(c *Case, o *Outcome, log []Access, mr *modelResult, res *R
 		}
 	}
 	f.Data = data
-	c2 := &Case{Prop: c.Prop, Seed: c.Seed, Project: q, Entry: c.Entry}
+	c2 := &Case{Prop: c.Prop, Seed: c.Seed, Project: q, Entry: c.Entry, RootAs: c.RootAs, Banned: c.Banned}
 	must(Materialise(q.Files))
 	o2 := buildCase(c2)
 	must(Materialise(c.Project.Files))
@@ -1069,7 +1083,10 @@ func oracleC07(c *Case, o *Outcome, log []Access, mr *modelResult, treeAsserted 
 	// (c) located in advance
 	if c.Expect != nil {
 		ex := c.Expect
-		if filepath.Clean(e.File) != filepath.Join(projDir, ex.File) || e.Index != ex.Off || (ex.Line != 0 && e.Line != ex.Line) {
+		if ex.MsgHas != "" && !strings.Contains(e.Msg, ex.MsgHas) {
+			return "fault-located-elsewhere", "planted-defect-not-reported", fmt.Sprintf("%s: expected an error saying %q at %s line %d, got: %s (at %s line %d)", ex.Why, ex.MsgHas, ex.File, ex.Line, trunc(e.Msg, 100), e.File, e.Line)
+		}
+		if filepath.Clean(e.File) != filepath.Join(projDir, ex.File) || (ex.Off >= 0 && e.Index != ex.Off) || (ex.Line != 0 && e.Line != ex.Line) {
 			return "fault-located-elsewhere", "fault-located-elsewhere", fmt.Sprintf("%s: expected the error at %s index %d (line %d), reported at %s index %d (line %d): %s", ex.Why, ex.File, ex.Off, ex.Line, e.File, e.Index, e.Line, trunc(e.Msg, 100))
 		}
 		res.count("c07:fault-located-error-checked", 1)
